@@ -11,10 +11,12 @@ from ..core import Violation
 ID = 'C10'
 MODULES = ['OFModel.Frame']
 RULE = ('op sequences over {Frame(ndarray), from_jpg with/without dims, Frame(dict), Frame(frame, data?, format?), Frame(frame.image), copy, rw, ro, rgb, '
-        'bgr, gray, rw_rgb, rw_bgr, ro_rgb, ro_bgr, .image, .jpg, pickle round trip, in-place pixel write} applied to any live frame: exhaustive to '
-        'length 3 (quick) / 4 (thorough; length 4 on targets {start frame, newest frame}) from 12 start frames (rw/ro x BGR/RGB/GRAY arrays, jpg-only '
-        'BGR/RGB/GRAY, decoded jpg BGR/GRAY, data-only) of sizes 1x1, 2x3, 5x4, 16x16; random sequences of length 5-40 with constructors and malformed '
-        'constructor calls mixed in. non-trivial = the sequence contains a pixel write or a jpg read and at least one view/copy op')
+        'bgr, gray, rw_rgb, rw_bgr, ro_rgb, ro_bgr, .image, .jpg, pickle round trip, in-place pixel write} applied to any live frame: exhaustive over a '
+        '17-symbol alphabet x target frame from 12 start frames (rw/ro x BGR/RGB/GRAY arrays, jpg-only BGR/RGB/GRAY, decoded jpg BGR/GRAY, data-only; sizes '
+        '1x1, 2x3, 5x4, 16x16) to length 3 in the quick tier (third op on the start frame or the newest frame) and to length 4 in the thorough tier (every '
+        'live frame for the first three ops, fourth op on the start frame or the newest frame); plus random sequences of length 5-40 (2 000 quick / 30 000 '
+        'thorough) with constructors and malformed constructor calls mixed in, compared after every step. non-trivial = the sequence contains a pixel '
+        'write or a jpg read and at least one view/copy/pickle op')
 ASSUMPTIONS = ['a read-only array handed to Frame() by the user has no writable alias elsewhere, and user code does not flip flags.writeable itself',
                'arrays handed in by the user do not overlap other arrays in memory (one memory block per array object)',
                'formats are only relabelled between RGB and BGR (Frame(gray_frame, None, "RGB") and Frame(3-channel array, format="GRAY") are accepted by the '
